@@ -26,6 +26,51 @@ def budget(tier):
     return {"quick": {"runs": 400, "wall": 200}, "thorough": {"runs": 4800, "wall": 900}}[tier]
 
 
+def _instant_violation(w):
+    """The statement's middle clause, evaluated at the instant of death on the durable state: "storage is never left describing
+    work as done that the providers do not reflect".  Only rows written during the step that dies are looked at (no user acts
+    inside a step, so whatever such a row newly claims is the engine's own doing or was read from the provider in this step):
+    an object id that enters a row together with last-synced markers (the destination of the engine's own create/mkdir) must be an
+    object the provider holds, with the recorded content hash; on sides with stable ids, a side newly recorded as deleted must be
+    gone.  (The origin side's markers and re-uploads are not judged here: the engine's belief about an object a user changed
+    before this step is legitimately stale.)"""
+    from .monitors import _dec
+    snap = getattr(w, "step_snap", None)
+    if snap is None or w.cs is None:
+        return None
+    tag = w.cs.state._tag
+    now, old = w.sd.get(tag, {}), snap.get(tag, {})
+    for eid in sorted(now):
+        raw = now[eid]
+        if old.get(eid) == raw:
+            continue
+        row = _dec(raw)
+        prev = _dec(old[eid]) if eid in old else None
+        if row.get("ignored") not in (None, "", "none"):
+            continue
+        for s in (0, 1):
+            sd = row["side%d" % s]
+            ps = prev["side%d" % s] if prev else {}
+            oid = sd.get("oid")
+            if oid is None:
+                continue
+            p = w.provs[s]
+            if sd.get("exists") == "exists" and sd.get("sync_path") and ps.get("oid") is None and not ps.get("sync_path"):
+                # an id that enters the row together with last-synced markers is the destination of the engine's own create/mkdir
+                # (events bring ids without markers; a rename on a path-id side changes the id but keeps the old marker)
+                info = w._as_user(p, lambda: p.info_oid(oid))
+                if info is None:
+                    return Violation("recorded-before-done", "at the crash instant row %r (written in the dying step) records side %d as synchronised at %r with new id %r, "
+                                     "but the provider holds no such object" % (eid, s, sd.get("sync_path"), oid), paths=[])
+                if sd.get("otype") == "file" and sd.get("hash") is not None and info.hash != sd.get("hash"):
+                    return Violation("recorded-before-done", "at the crash instant row %r records new object %r on side %d with a content hash the provider's object does not have" % (eid, oid, s), paths=[])
+            elif sd.get("exists") == "trashed" and ps.get("exists") == "exists" and ps.get("oid") == oid and not p.oid_is_path:
+                info = w._as_user(p, lambda: p.info_oid(oid))
+                if info is not None:
+                    return Violation("recorded-before-done", "at the crash instant row %r records object %r on side %d as deleted, but the provider still holds it" % (eid, oid, s), paths=[])
+    return None
+
+
 def _crash_run(case, crash):
     """one execution of case['plan'] with the given crash (kind, k) or None; returns (ex, crashed_at_item, site)"""
     ex = Exec(case["cfg"])
@@ -47,6 +92,9 @@ def _crash_run(case, crash):
         w.ctl.crash_at_sw = w.ctl.crash_at_pw = None
         w.ctl.engine = False
         w.ctl.depth = 0
+        if getattr(ex, "instant", None) is None:
+            ex.instant = _instant_violation(w)
+        ex.instants_checked = getattr(ex, "instants_checked", 0) + 1
         w.shutdown(graceful=False)
         w.up("intact")
 
@@ -82,6 +130,8 @@ def _oracle(ex, case):
 
 
 def _oracle0(ex, case):
+    if getattr(ex, "instant", None) is not None:
+        return ex.instant
     v = convergence_violation(ex)
     if v:
         if v.cls == "diverged":
